@@ -192,6 +192,10 @@ def validate_samples(S, rep, name, limit=3):
                 continue
             pred = sc['predicted']
             diffs = {k: (pred[k], nat.get(k)) for k in pred if pred[k] != nat.get(k)}
+            if diffs:
+                # a loaded machine can make the loopback run slow: repeat once with generous waits before concluding
+                nat = replay_net.observe(S.L, dict(sc, wait_ms=4000, hold_ms=800), timeout_s=40) or nat
+                diffs = {k: (pred[k], nat.get(k)) for k in pred if pred[k] != nat.get(k)}
             rep.replays += 1
             sc['native'] = nat
             if diffs:
